@@ -117,6 +117,12 @@ def initial_sets(draw, nodes, allow_R=True, min_I=1, max_I=None):
     """disjoint (I0, R0) lists of labels"""
     n = len(nodes)
     stat = [draw(st.sampled_from('SSIR' if allow_R else 'SSI')) for _ in range(n)]
+    corner = draw(st.integers(0, 19))
+    if corner == 0 and max_I is None:
+        stat = ['I'] * n                                    # everybody infected at the start
+    elif corner == 1 and allow_R and n >= 2 and max_I is None:
+        stat = ['R'] * n                                    # one infected node in an otherwise immune population
+        stat[draw(st.integers(0, n - 1))] = 'I'
     if stat.count('I') < min_I:
         for i in draw(st.permutations(list(range(n))))[:min_I]:
             stat[i] = 'I'
